@@ -220,7 +220,8 @@ ARGCFG = ['"argument" in self._config', '"size" in self._config["argument"]']
 contract(OT + 'address:AddressOperand._parse_bytecode_parts', name='address-operand-parts', props=['C01'],
          returns='ParsedOperand?', requires=ARGCFG,
          may_raise={'SystemExit': 'True', 'SyntaxError': 'True', 'KeyError': 'True', 'ValueError': 'True'},
-         ensures=[ARG_OK, CODE_OK, NO_CODE, HAS_CODE], modifies=[], allocates=True, no_frame_check=True)
+         ensures=[ARG_OK, CODE_OK, NO_CODE, HAS_CODE, 'implies(result is not None, result._operand_str == operand)'],
+         modifies=[], allocates=True, no_frame_check=True)
 contract(OT + 'relative_address:RelativeAddressOperand.parse_operand', name='relative-operand-parts', props=['C01', 'C12'],
          returns='ParsedOperand?', requires=ARGCFG,
          may_raise={'SystemExit': 'True', 'SyntaxError': 'True', 'KeyError': 'True', 'AttributeError': 'True'},
